@@ -188,14 +188,15 @@ def check_nav(c, st):
         chain = []
         for ref in refs:
             want = rfc_resolve(want, ref)
-            cur = cur.navigate(ref)
+            # the destination may be given as text or as a URL object
+            cur = cur.navigate(uu.URL(ref) if c.get('ref_as_url') else ref)
             chain.append(cur.to_text())
     except Exception as e:
         return ('navigate-raised:%s' % type(e).__name__, 'URL(%r).navigate chain %r raised %r' % (base, refs, e))
     got = cur.to_text()
     if norm(got) != norm(want):
         shape = refshape(refs[-1])
-        return ('navigate:%s%s' % (shape[0], ':chain' if len(refs) > 1 else ''),
+        return ('navigate:%s%s%s' % (shape[0], ':chain' if len(refs) > 1 else '', ':url-object' if c.get('ref_as_url') and shape[0] == 'abs-url' else ''),
                 'URL(%r).navigate%r -> %r, RFC 3986 5.2 gives %r' % (base, tuple(refs), got, want))
     segs = list(cur.path_parts)
     if '.' in segs or '..' in segs:
@@ -300,7 +301,7 @@ def gen(r):
                 ''.join('/' + s for s in segs) + r.choice(['', '?q=1', '#f'])}
     base = r.choice(BASES)
     nref = 1 if r.random() < 0.75 else r.randint(2, 4)
-    return {'kind': 'nav', 'base': base, 'refs': [gen_ref(r) for _ in range(nref)]}
+    return {'kind': 'nav', 'base': base, 'refs': [gen_ref(r) for _ in range(nref)], 'ref_as_url': r.random() < 0.3}
 
 
 def systematic(maxlen):
@@ -327,7 +328,8 @@ def run(ctx):
             if not ctx.thorough and (i // ctx.nshards) % 3:
                 continue
             for suffix in ('', '?k=v#fr'):
-                run_case(ctx, {'kind': 'nav', 'base': base, 'refs': [ref + suffix]}, check, 'sys', None, shr)
+                run_case(ctx, {'kind': 'nav', 'base': base, 'refs': [ref + suffix], 'ref_as_url': bool(i % 5 == 0)},
+                         check, 'sys', None, shr)
         if ctx.out_of_time():
             break
     ctx.stats.count('systematic_refs_done', i)
